@@ -137,7 +137,7 @@ SPECS = {
     "C09": dict(
         title="subscriptions",
         streams=[("subs", 1500, 40000, 40), ("subsub", 800, 30000, 40)],
-        proj=dict(keep_ops=("subscribe", "unsubscribe", "read"), keep_events=("upd",)),
+        proj=dict(keep_ops=("subscribe", "unsubscribe", "read", "onupdate"), keep_events=("upd", "nodeupd")),
         oracle=O.oracle_subscriptions, profiles=("debug",), dump=False,
         nontrivial=lambda src, ops: sum(1 for o in ops for e in o.events if e.startswith("upd")) >= 2,
         rule_nt="at least two subscription callbacks",
